@@ -377,3 +377,9 @@ def interp2d(V):
         out.unchanged('x', x)
         out.unchanged('xf', xf)
         out.unchanged('f', f)
+
+
+from pyvc.api import int_variant
+int_variant('C20', 'calc_step_fn_steps_vals', ['x'])
+int_variant('C20', 'interp_left', ['x', 'y'])
+int_variant('C20', 'interp2d', ['f'])
